@@ -17,12 +17,17 @@ PROPS_MODULE = "NumbersModel.Props.C03"
 THEOREMS = [f"NumbersModel.Props.C03.{t}" for t in (
     "wf_init", "abs_init", "wf_step", "refines", "ok_only_if_valid", "invalid_raises_IndexError", "valid_succeeds",
     "wf_reachable", "wf_reachable_from", "refines_history", "isolation", "structural_ops_pure", "save_pure",
-    "wf_doc_step", "cache_key_injective", "memo_transparent")]
+    "saved_grid_reopens", "wf_doc_step", "cache_key_injective", "memo_transparent")]
 PARTIAL = {
     "memo_transparent": "proved for integer key arguments and pure methods (Model/Cache.lean); that the decorated methods "
     "of model.py are pure between invalidations is exercised by the interleaved multi-table histories, not proved",
-    "save_pure": "the model's `save` is the identity on grids; that the saved file reopens to `abs s` is tied to the "
-    "code by the save/reopen steps of the lock-step histories (and is C01's `table_roundtrip`), not proved here",
+    "save_pure": "the document-level `save` step of the grid model is the identity on the open grids (that is all this "
+    "theorem says). What the saved file contains is `saved_grid_reopens`: for every well-formed state (hence every "
+    "reachable one) whose cells are storable, saveTable (recalculate_table_data) followed by loadTable (Table.__init__) "
+    "returns the plain grid `abs s` cell by cell with num_rows x num_cols cells - a theorem over Model/TablePipeline "
+    "(C01 table_roundtrip). Still only exercised (save/reopen steps of the lock-step histories): that the value token of "
+    "the grid model corresponds to the storage-level cell (Cell._from_value / Cell.value, C01's oracle), and the "
+    "zip / IWA / protobuf layers (C05)",
 }
 RULE = ("one case = one history (request line). Exhaustive part: every sequence of length <= 2 (quick) / <= 3 (thorough) "
         "over the 27-operation menu on new 1x1, 2x2 and 2x3 tables (quick adds a seeded sample of length-3 sequences); "
@@ -37,8 +42,13 @@ MANIFEST = {
             "the plain-list operation), invalid_raises_IndexError / valid_succeeds (exact acceptance domain), "
             "wf_reachable, refines_history, isolation. Tied to the code by lock-step histories on the real API "
             "(bounded-exhaustive + seeded long histories with save/reopen across tables, sheets and documents) compared "
-            "step by step with the compiled model and with an independent plain-grid oracle. Persisting (reopened == "
-            "open) is checked by the histories, not proved (C01).",
+            "step by step with the compiled model and with an independent plain-grid oracle. Persisting: "
+            "saved_grid_reopens - for every well-formed table state with >= 1 row inside the library's limits whose cells are "
+            "storable, the table written by recalculate_table_data and rebuilt by Table.__init__ (Model/TablePipeline, C01 "
+            "table_roundtrip) is the plain grid abs s, cell by cell, with exactly num_rows x num_cols cells; together with "
+            "refines_history: open, edit by any accepted history, save, reopen = the plain-grid fold of the history. The "
+            "file layers below the TST objects (protobuf / IWA / zip) and value <-> cell conversion are checked by the "
+            "histories' save/reopen steps, not proved (C05, C01).",
     "note": "fixes/C03-edit-counts.patch and fixes/C03-negative-coords.patch repair genuine defects found by the check "
             "(out-of-range counts corrupt num_rows/num_cols vs data; write(-1, 0, v) stores a cell that reports row -1).",
     "technique": "Lean 4 proof (loop invariants, induction over histories, refinement to a list-of-lists spec) + "
@@ -48,7 +58,9 @@ ASSUMPTIONS = [
     "every Cell object in Table._data is created for exactly one position (no aliasing), so `cell.row = r` is modelled "
     "as an update of the cell stored at that index",
     "Cell._from_value / cell.value are modelled as an opaque value token (values used survive unchanged; C01)",
-    "Document.save / Document(path) are modelled as the identity on grids; checked on every save/reopen step",
+    "the document-level model treats Document.save / Document(path) as the identity on grids (checked on every save/reopen "
+    "step); the table-level content of the file is Model/TablePipeline (saved_grid_reopens; its correspondence lives in "
+    "checks/c01.py and checks/c02.py)",
 ]
 
 MENU_SIZE = 27
